@@ -18,6 +18,7 @@ from packaging import version
 
 # Local modules
 from fortls.constants import (
+    ASSOC_TYPE_ID,
     CLASS_TYPE_ID,
     FORTRAN_LITERAL,
     FUNCTION_TYPE_ID,
@@ -822,6 +823,21 @@ class LangServer:
             if keyword_obj is not None:
                 return keyword_obj
         curr_scope = def_file.ast.get_inner_scope(def_line + 1)
+        # On the ASSOCIATE statement only the names in front of "=>" belong to the
+        # construct, the selectors are expressions of the enclosing scope
+        if (
+            curr_scope is not None
+            and curr_scope.get_type() == ASSOC_TYPE_ID
+            and curr_scope.sline == def_line + 1
+            and curr_scope.parent is not None
+        ):
+            name_end = def_char
+            while name_end < len(curr_line) and (
+                curr_line[name_end].isalnum() or curr_line[name_end] in "_$"
+            ):
+                name_end += 1
+            if is_member or not re.match(r"\s*=>", curr_line[name_end:]):
+                curr_scope = curr_scope.parent
         # Traverse type tree if necessary
         if is_member:
             type_scope = climb_type_tree(var_stack, curr_scope, self.obj_tree)
